@@ -19,6 +19,12 @@ LEVEL_TEXT = ("Theorems (Coq, all inputs, over the reals, for every uniform stre
               "agree on the region give the same value, statics and stream position (C14_vegas_iterations_points_inside, invariant vlive_ok over the cells, the odometer kg and the "
               "refinements), and the whole call Integrate_MC(..., \"Vegas\") from whatever statics, in 1..10 dimensions with budgets >= 2, looks at the integrand only inside the region "
               "(C14_vegas_points_inside: the initialisation with init = 0 establishes the invariant: uniform grid, nd in 2..50, ng >= 1); "
+              "TERMINATION, MEMORY SAFETY, BUDGET (seventh pass, every integrand, no premise on it): Integrate_MC_Miser in >= 1 dimensions with any budget >= 0 and ANY stream has the outcome Ok "
+              "(the recursion is at most ncall/15 + 2 deep, every level with >= 60 points hands 15 <= nptl, nptr <= npts - 30 points to its halves, the split dimension jb from the pre-sample or from "
+              "iran in 0..174999 is a valid index) and leaves the generator at position ncall*dim, i.e. evaluates the integrand exactly ncall times (C14_miser_completes_and_spends_budget), so Miser's "
+              "exactness on constants holds without the proviso 'whenever the fuel suffices' (C14_miser_constant_exact_total); plain Monte Carlo evaluates exactly ncall times (C14_plain_mc_spends_budget); "
+              "Vegas' loop over the cells is an odometer that wraps around after exactly ng^ndim passes (C14_vegas_odometer), every accumulation into d stays inside the bins in use, and the whole call "
+              "from any statics, 1..10 dimensions, budget >= 2, streams in (0,1), has the outcome Ok over the reals (C14_vegas_iterations_complete, C14_vegas_completes; that the NaN exit is not taken in doubles is tested, not proved); "
               "the 2-D/3-D front ends build the region {x1,y1,(z1),x2,y2,(z2)} and pass args[0],args[1],(args[2]). "
               "End to end through the front ends with the method Monte-Carlo, on top of this model's Integrate_MC started from any statics (C14_front_2d_plain_mc_points_inside, "
               "C14_front_3d_plain_mc_points_inside, C14_front_plain_mc_constant_exact): Integrate_2D / Integrate_3D look at the integrand only inside the rectangle spanned by the limits, in any "
